@@ -733,6 +733,10 @@ class IntegratePlanar:
         Computes the integral for a bezier curve of given control points
         """
         assert isinstance(curve, PlanarCurve)
+        if nnodes is None and curve.degree > 1:
+            return IntegratePlanar.winding_number_adaptive(
+                tuple(curve.ctrlpoints), Point2D(center)
+            )
         nnodes = curve.npts if nnodes is None else nnodes
         nodes = Math.closed_linspace(nnodes)
         total = 0
@@ -742,3 +746,33 @@ class IntegratePlanar:
                 pointa, pointb, center
             )
         return total
+
+    @staticmethod
+    def winding_number_adaptive(
+        points: Tuple[Point2D], center: Point2D, depth: int = 0
+    ) -> float:
+        """
+        Subdivides the bezier curve until the center is outside the
+        bounding box of the control points: then the angle seen from
+        the center is the same angle of the chord
+        """
+        xvals = tuple(point[0] for point in points)
+        yvals = tuple(point[1] for point in points)
+        outside = center[0] < min(xvals) or max(xvals) < center[0]
+        outside = outside or center[1] < min(yvals) or max(yvals) < center[1]
+        if outside or depth > 48:
+            return IntegratePlanar.winding_number_linear(
+                points[0], points[-1], center
+            )
+        left, right = [points[0]], [points[-1]]
+        while len(points) > 1:
+            points = tuple(
+                (pta + ptb) / 2 for pta, ptb in zip(points[:-1], points[1:])
+            )
+            left.append(points[0])
+            right.insert(0, points[-1])
+        wind = IntegratePlanar.winding_number_adaptive(left, center, depth + 1)
+        wind += IntegratePlanar.winding_number_adaptive(
+            right, center, depth + 1
+        )
+        return wind
